@@ -3,7 +3,7 @@ style so that sub-expressions that can raise are bound (`>>=`) in Python's evalu
 import ast
 
 from py2lean_types import (Unsupported, Impure, Ty, TInt, TBool, TStr, TNone, TRange, TErased, TList, TOpt, TTuple,
-                           TDict, TObj, TAbs, TExc, TUnion, TVar, THet, TMaybe, INT, BOOL, STR, NONE, RANGE, ERASED,
+                           TDict, TObj, TAbs, TExc, TUnion, TVar, THet, TMaybe, TEffect, INT, BOOL, STR, NONE, RANGE, ERASED,
                            resolve, unify, join, coerce, proj, iter_elem)
 
 EXC = {"ValueError": ".valueError", "TypeError": ".typeError", "IndexError": ".indexError",
@@ -114,6 +114,8 @@ class ExprMixin:
         raise Unsupported("constant " + repr(v))
 
     def e_Name(self, e, env, k):
+        if e.id in self.effect_alias and self.effect_key(e, env) is not None:
+            return k(*env[self.effect_key(e, env)])
         if e.id in env:
             c, t = env[e.id]
             if isinstance(resolve(t), TMaybe):
@@ -122,6 +124,8 @@ class ExprMixin:
         raise Unsupported("unknown name " + e.id)
 
     def e_Attribute(self, e, env, k):
+        if self.effect_key(e, env) is not None:
+            return k(*env[self.effect_key(e, env)])
         key = src(e)
         if key in env:                       # self.x inside __init__
             return k(*env[key])
@@ -275,6 +279,8 @@ class ExprMixin:
 
     def prop(self, e, env):
         """decidable Lean proposition for a side-effect-free condition (pure mode only)"""
+        if src(e) in self.assume_false:
+            return "False"           # declared in the specs (typed domain), see notes/translator.md
         if isinstance(e, ast.BoolOp):
             sym = " ∧ " if isinstance(e.op, ast.And) else " ∨ "
             return "(" + sym.join(self.prop(v, env) for v in e.values) + ")"
@@ -305,6 +311,13 @@ class ExprMixin:
         if cls == "int" and isinstance(t, (TInt, TBool)):
             return "True"
         if isinstance(t, TAbs) and cls in self.reg.abs_isinstance.get(t.name, ()):
+            return "True"
+        if isinstance(t, TObj):
+            # static dispatch: the class of the object is its declared type
+            wanted = [src(x) for x in e.args[1].elts] if isinstance(e.args[1], ast.Tuple) else [cls]
+            mine = [n.name for n in self.reg.mro(t.cls)] or [t.cls]
+            return "True" if any(w in mine for w in wanted) else "False"
+        if cls in ("numbers.Integral", "Integral") and isinstance(t, (TInt, TBool)):
             return "True"
         raise Unsupported("isinstance test outside the typed domain: " + src(e))
 
